@@ -523,6 +523,33 @@ func (w *Wallet) HTLCLockedProofs(
 	return lockedProofs, nil
 }
 
+// verifyTokenDLEQ verifies the DLEQ proofs present in the proofs of a token. Each proof is
+// verified against the public keys of the keyset it belongs to. Proofs from a keyset
+// other than the active one are still valid, so the keys of that keyset are fetched from the mint.
+func verifyTokenDLEQ(proofs cashu.Proofs, mintURL string, activeKeyset *crypto.WalletKeyset) bool {
+	keysets := map[string]crypto.WalletKeyset{activeKeyset.Id: *activeKeyset}
+	for _, proof := range proofs {
+		if proof.DLEQ == nil {
+			continue
+		}
+
+		keyset, ok := keysets[proof.Id]
+		if !ok {
+			publicKeys, err := GetKeysetKeys(mintURL, proof.Id)
+			if err != nil {
+				return false
+			}
+			keyset = crypto.WalletKeyset{Id: proof.Id, MintURL: mintURL, PublicKeys: publicKeys}
+			keysets[proof.Id] = keyset
+		}
+
+		if !nut12.VerifyProofsDLEQ(cashu.Proofs{proof}, keyset) {
+			return false
+		}
+	}
+	return true
+}
+
 // Receives Cashu token. If swap is true, it will swap the funds to the configured default mint.
 // If false, it will add the proofs from the mint and add that mint to the list of trusted mints.
 func (w *Wallet) Receive(token cashu.Token, swapToTrusted bool) (uint64, error) {
@@ -535,7 +562,7 @@ func (w *Wallet) Receive(token cashu.Token, swapToTrusted bool) (uint64, error) 
 	}
 
 	// verify DLEQ in proofs if present
-	if !nut12.VerifyProofsDLEQ(proofsToSwap, *keyset) {
+	if !verifyTokenDLEQ(proofsToSwap, tokenMint, keyset) {
 		return 0, errors.New("invalid DLEQ proof")
 	}
 
@@ -623,7 +650,7 @@ func (w *Wallet) ReceiveHTLC(token cashu.Token, preimage string) (uint64, error)
 		return 0, fmt.Errorf("could not get active keyset: %v", err)
 	}
 	// verify DLEQ in proofs if present
-	if !nut12.VerifyProofsDLEQ(proofs, *keyset) {
+	if !verifyTokenDLEQ(proofs, tokenMint, keyset) {
 		return 0, errors.New("invalid DLEQ proof")
 	}
 
